@@ -122,6 +122,7 @@ type Run struct {
 	Err       error // result of Client.Handshake
 	Flights   []Flight
 	SrvPanic  bool
+	CliPanic  bool
 	SrvErrs   []error
 	Handle    *transport.Handle // what Accept returned after the run (nil if nothing was published)
 	nC2S, nS2C int
@@ -130,11 +131,21 @@ type Run struct {
 // RunHandshake runs a real Client.Handshake against srv, every datagram passing through tamper.
 // The client is closed by the pump as soon as it waits for a datagram that will never come.
 func RunHandshake(srv *Srv, ccfg transport.ClientConfig, caddr *net.UDPAddr, tamper Tamper) *Run {
+	for srv.Accept() != nil { // handles published by earlier handshakes on this server
+	}
 	cc := NewCliConn(caddr, srv.Addr)
 	cli := transport.NewClient(cc, srv.Addr, ccfg)
 	r := &Run{Cli: cli, Conn: cc}
 	done := make(chan error, 1)
-	go func() { done <- cli.Handshake() }()
+	go func() {
+		defer func() {
+			if p := recover(); p != nil {
+				r.CliPanic = true
+				done <- fmt.Errorf("client panicked: %v", p)
+			}
+		}()
+		done <- cli.Handshake()
+	}()
 	// Client.Handshake reads exactly two datagrams (ServerHello, ServerAuth), one in hidden
 	// mode; later reads belong to the receive loop of the established connection.
 	hsReads := 2
